@@ -525,6 +525,11 @@ static int send_upgrade_response(struct http_connection *connection)
 		return -1;
 	}
 
+	if (unlikely(!s->upgrade_to_websocket_requested)) {
+		/* An upgrade to some other protocol (RFC 6455, 4.2.1). */
+		return -1;
+	}
+
 	uint8_t accept_value[28];
 	struct SHA1Context context;
 	uint8_t sha1_buffer[SHA1HashSize];
@@ -608,6 +613,12 @@ int websocket_upgrade_on_header_field(http_parser *p, const char *at, size_t len
 		return 0;
 	}
 
+	static const char upgrade[] = "Upgrade";
+	if ((sizeof(upgrade) - 1 == length) && (jet_strncasecmp(at, upgrade, length) == 0)) {
+		s->current_header_field = HEADER_UPGRADE;
+		return 0;
+	}
+
 	return 0;
 }
 
@@ -675,6 +686,39 @@ static void check_websocket_protocol(struct websocket *s, const char *at, size_t
 			}
 			if (length == 0) {
 				fill_requested_sub_protocol(s, start, token_length(start, end));
+			}
+		} else {
+			start++;
+			length--;
+		}
+	}
+}
+
+static void fill_requested_upgrade(struct websocket *s, const char *name, size_t length)
+{
+	static const char websocket[] = "websocket";
+	if ((sizeof(websocket) - 1 == length) && (jet_strncasecmp(name, websocket, length) == 0)) {
+		s->upgrade_to_websocket_requested = true;
+	}
+}
+
+static void check_upgrade(struct websocket *s, const char *at, size_t length)
+{
+	const char *start = at;
+	while (length > 0) {
+		if (!isspace(*start) && (*start != ',')) {
+			const char *end = start;
+			while (length > 0) {
+				if (*end == ',') {
+					fill_requested_upgrade(s, start, token_length(start, end));
+					start = end;
+					break;
+				}
+				end++;
+				length--;
+			}
+			if (length == 0) {
+				fill_requested_upgrade(s, start, token_length(start, end));
 			}
 		} else {
 			start++;
@@ -904,6 +948,11 @@ int websocket_upgrade_on_header_value(http_parser *p, const char *at, size_t len
 	case HEADER_SEC_WEBSOCKET_EXTENSIONS:
 		check_websocket_extensions(s, at, length);
 		break;
+
+	case HEADER_UPGRADE:
+		check_upgrade(s, at, length);
+		break;
+
 	case HEADER_UNKNOWN:
 	default:
 		break;
